@@ -202,6 +202,19 @@ def r4(ctx, rep):
                 ok = bool(i_fold) and any(i < i_fold[0] for i in i_save) and any(i > i_fold[0] for i in i_rest)
     rep.check(ok, "join-append-state-restored", "folding the argument of a join / append runs the Sort arm for any `sort` inside it, which assigns `self.sort`: the outer pipeline's sort must be saved before "
               "`fold_transform_kind(self, kind)` and restored after it, otherwise a following `take` selects its rows in the joined pipeline's order", file=fl["file"], line=fl["l"], fn=fl["path"])
+    # ... and the argument starts without an order: the outer sort is MOVED out (mem::take) or the state is cleared before the argument is folded
+    ok = False
+    for m in matches_of(fl["body"]):
+        for arm in m["arms"]:
+            pt = show(arm["pat"], maxdepth=8)
+            if "TransformKind::Join" in pt and "TransformKind::Append" in pt and arm["body"].get("k") == "block":
+                st = [show_stmts({"k": "block", "s": [x]}, maxdepth=8) for x in arm["body"]["s"]]
+                i_fold = [i for i, t in enumerate(st) if "fold_transform_kind(self, kind)" in t]
+                i_empty = [i for i, t in enumerate(st) if "mem::take(&mut self.sort)" in t or "mem::replace(&mut self.sort" in t or t.startswith("self.sort.clear()") or t.startswith("self.sort = vec!")
+                           or t.startswith("self.sort = Vec::new()") or t.startswith("self.sort = Default::default()")]
+                ok = bool(i_fold) and any(i < i_fold[0] for i in i_empty)
+    rep.check(ok, "join-append-argument-unsorted", "the argument of a join / append is a pipeline of its own: `self.sort` must be empty while it is folded (moved out with mem::take, or cleared), "
+              "otherwise a `take` or window inside the argument is ordered by a column of the outer pipeline that does not exist there", file=fl["file"], line=fl["l"], fn=fl["path"])
     s = None
     for m in matches_of(fl["body"]):
         for arm in m["arms"]:
